@@ -106,7 +106,7 @@ PROPS = {
         crate="mon_text", cmd="c15", level="exploration",
         lanes={"quick": [], "thorough": ["fuzz"]}, fuzz_target="uci", fuzz_seconds=120, fuzz_replay={"kind": "c15-line"}, fuzz_replay_key="line",
         fuzz_seeds=["go wtime 1 btime 2 winc 3 binc 4 movestogo 5 depth 6 nodes 7 mate 8 movetime 9 infinite ponder searchmoves e2e4 e7e8q", "position startpos moves e2e4 e7e5", "position fen r3k2r/8/8/3pP3/8/8/8/R3K2R w Kq d6 7 42 moves e5d6", "setoption name Hash value 128", "register name a b code c d", "debug on", "register later"],
-        floors={"quick": {"positive_Go": 10000, "positive_Position": 10000, "positive_SetOption": 1000, "positive_Register": 1000, "positive_Debug": 1000, "negative_*": 50000, "fuzz_lines": 50000, "move_round_trips": 28672}},
+        floors={"quick": {"positive_Go": 10000, "positive_Position": 10000, "positive_lines_with_more_than_512_moves": 500, "positive_SetOption": 1000, "positive_Register": 1000, "positive_Debug": 1000, "negative_*": 50000, "fuzz_lines": 50000, "move_round_trips": 28672}},
         rule="positive: abstract command values (all 12 command kinds; every subset and permutation of the twelve go parameters with values from {0,1,2,2^31,2^63-1,2^64-1,random}; position startpos / 4- and 6-field FENs with 0-200 reference-legal moves; multi-word option / registration names) rendered by the monitor's own writer with 1-5 spaces between tokens and optional leading/trailing space, parsed, and compared field by field with the value they were rendered from; "
              "negative: lines with one injected fault of a listed class (unknown / upper-case / non-ASCII first word, missing parameter, bad / negative / out-of-range number, bad move token, bad FEN, duplicated go parameter, unknown go token) must parse to Err; "
              "fuzz: random UTF-8, single and double mutants of valid lines, 1000-20000-move lines, and move tokens on their own must never panic; UciMove text round trip over all 64x64x7 values (exhaustive); thorough tier adds a coverage-guided lane (cargo-fuzz: libFuzzer + AddressSanitizer, 120 s, 8 forks) for the never-panics clause; distinct_nontrivial = distinct faulty lines + distinct go parameter orderings + distinct move texts",
@@ -188,8 +188,8 @@ PROPS = {
     ),
     "C18": dict(
         crate="mon_engine", cmd="c18", level="exploration",
-        floors={"quick": {"operations": 1000000, "evictions": 100000, "puts_of_previously_used_key": 100000, "capacity_bucket_1-3": 1000}},
-        rule="random put/get/clear sequences (length 1-2000, capacity 1-64, key universe 1-3x capacity with small and large 64-bit keys, op mix 60/35/5, unique value per put) on the hook handle of HashTable<ZobristHash,u64>, compared after every operation with a 15-line sequential FIFO-map model: get result, len, len <= capacity, insertion queue length = len, load_factor, and presence of every key ever used (right eviction victim); "
+        floors={"quick": {"operations": 1000000, "evictions": 100000, "puts_of_previously_used_key": 100000, "capacity_bucket_1-3": 1000, "large_capacity_cases": 3}},
+        rule="random put/get/clear sequences (length 1-2000, capacity 1-64, key universe 1-3x capacity with small and large 64-bit keys, op mix 60/35/5, unique value per put) on the hook handle of HashTable<ZobristHash,u64>, compared after every operation with a 15-line sequential FIFO-map model: get result, len, len <= capacity, insertion queue length = len, load_factor, and presence of every key ever used (right eviction victim); plus large capacities (2^24, the engine's 10,000,000, 65,536; thorough also 2^24+1, 2^25, 2^23+1) filled with capacity+k distinct keys and checked in closed form (size = capacity, exactly the k oldest keys gone); "
              "distinct_nontrivial = distinct (capacity, operation sequence) cases that ran to the end",
         assumptions=BASE_ASSUME,
     ),
